@@ -73,7 +73,7 @@ def run_struct(case):
 
 
 def is_list(t):
-    return t[0] in ('L', 'C')
+    return t is not None and t[0] in ('L', 'C', 'M')
 
 
 def pick(t, i):
@@ -81,7 +81,7 @@ def pick(t, i):
 
 
 def has_empty(t):
-    if t[0] in ('L', 'C'):
+    if t is not None and t[0] in ('L', 'C', 'M'):
         return len(t[1]) == 0 or any(has_empty(x) for x in t[1])
     return False
 
@@ -96,7 +96,7 @@ def slots(case):
     if k == 'method':
         return [('self', None)] + [('args', j) for j in range(len(case['args']))]
     if k in ('madd', 'muladd_new'):
-        return [('self', None), ('mul', None), ('add', None)]
+        return [('self', None)] + [(k2, None) for k2 in ('mul', 'add') if case.get(k2) is not None]
     return []
 
 
@@ -111,10 +111,9 @@ def put(case, s, v):
         case[s[0]][s[1]] = v
 
 
-def main():
-    cases = json.load(open(sys.argv[1]))['cases']
-    bad, checked = [], 0
-    for case in cases:
+def probe_one(case, bad):
+    checked = 0
+    for case in [case]:
         if case['kind'] == 'sum':
             # flat receivers only: sum() must be the left fold of the elements with the operator +
             items = case['self'][1]
@@ -127,7 +126,7 @@ def main():
             checked += 1
             if whole['r'] != exp['r'] or whole['n'] != exp['n']:
                 bad.append({'case': case, 'whole': whole['r'], 'whole_units': whole['n'], 'parts': [exp['r']],
-                            'parts_units': exp['n'], 'why': 'sum() is not x0 + x1 + ... (left to right)'})
+                            'parts_units': exp['n'], 'why': 'sum() is not 0 + x0 + x1 + ... (left to right)'})
             continue
         if case['kind'] == 'poll':
             # flat receiver, default labels: one Poll per channel, channel i polls self[i mod n]
@@ -168,11 +167,11 @@ def main():
             outs = [u for u in o['units'] if u[0][0].startswith(case.get('cls', 'Out') + '/') and u[0][1] == 'audio']
             why = None
             for u in outs:
-                if any(x == ['K', 0] for x in u[1][1:]):
+                if any(x[0] == 'K' and x[1] == 0 for x in u[1][1:]):
                     why = 'a literal zero reaches the output unit: inputs %s' % (u[1],)
-            nz = json.dumps(case['output']).count('["K", 0]') + json.dumps(case['output']).count('["F", 0]')
+            nz = sum(json.dumps(case['output']).count(z) for z in ('["K", 0]', '["F", 0]', '["B", 0]', '["Z"]'))
             if why is None and nz and '"T"' not in json.dumps(case['output']):
-                dcs = {i for i, u in enumerate(o['units']) if u[0][0].startswith('DC/') and u[0][1] == 'audio' and u[1] == [['K', 0]]}
+                dcs = {i for i, u in enumerate(o['units']) if u[0][0].startswith('DC/') and u[0][1] == 'audio' and len(u[1]) == 1 and u[1][0][:2] == ['K', 0]}
                 if not any(x[0] == 'U' and x[1] in dcs for u in outs for x in u[1][1:]) and outs:
                     why = 'zeros were given but no output unit reads a DC(0) silence unit'
             if why:
@@ -219,6 +218,18 @@ def main():
         if why:
             bad.append({'case': case, 'whole': whole['r'], 'whole_units': whole['n'],
                         'parts': parts, 'parts_units': units, 'why': why})
+    return checked
+
+
+def main():
+    cases = json.load(open(sys.argv[1]))['cases']
+    bad, checked = [], 0
+    for case in cases:
+        try:
+            checked += probe_one(case, bad)
+        except Exception as e:   # the library broke in a way the probe does not expect: report the call
+            bad.append({'case': case, 'whole': None, 'whole_units': 0, 'parts': [], 'parts_units': 0,
+                        'why': 'the probe raised %s: %s' % (type(e).__name__, str(e)[:160])})
     json.dump({'bad': bad, 'checked': checked}, open(sys.argv[2], 'w'))
 
 
@@ -232,7 +243,7 @@ def run_struct_fold(case):
         pre = make_prelude(case['pre'])
         n0 = len(sd._children)
         try:
-            box['r'] = struct(functools.reduce(operator.add, [bv(x, pre) for x in case['self'][1]]))
+            box['r'] = struct(functools.reduce(operator.add, [bv(x, pre) for x in case['self'][1]], 0))
         except Exception as e:   # noqa
             box['e'] = type(e).__name__
         box['n'] = len(sd._children) - n0
@@ -256,7 +267,7 @@ def run_struct_unit(sub):
         try:
             recv = bv(sub['self'], pre)
             if sub['kind'] == 'unit_madd':
-                r = recv.madd(bv(sub['mul'], pre), bv(sub['add'], pre))
+                r = recv.madd(*[bv(sub[k2], pre) for k2 in ('mul', 'add') if sub.get(k2) is not None])
             else:
                 r = getattr(recv, sub['meth'])(*[bv(a, pre) for a in sub['args']])
             box['r'] = struct(r)
